@@ -3,7 +3,7 @@
    model/Graph.v); design.d/C05.md says what is partial and why. *)
 From Coq Require Import List NArith Bool.
 From SV Require Import lib.Bytes model.Graph model.GraphInv gen.GenCrash model.Crash proofs.CrashProofs
-  proofs.CrashReach proofs.CrashStarted.
+  proofs.CrashReach proofs.CrashStarted model.CrashStartup proofs.CrashStartupGen proofs.CrashStartupProofs.
 Import ListNotations.
 Open Scope N_scope.
 
@@ -189,6 +189,90 @@ Proof. exact crash_no_orphans_partial. Qed.
 Theorem C05_crash_no_orphans_after_removal :
   forall opt x, no_orphans_at W3 opt x.
 Proof. exact crash_no_orphans_W3. Qed.
+
+(* ---- 5. a kill inside the STARTUP sequence of the restarted director -----------------------------
+   model/CrashStartup.v: startup.resume_from_db transaction by transaction (two of
+   reset_interrupted_steps; the blocks of rescan_env_vars as GENERATED from the source; one per hash
+   job of rescan_files; one of rescan_nglobs) on Graph.st + the env_var values + the nglob table,
+   against a fixed world (environment, disk, fresh glob scans).  The evidence of a change (state
+   RUNNING / CHECKING / FAILED, env_var.value, file.hash, nglob.data) may only be overwritten by the
+   transaction that marks the affected steps PENDING. *)
+
+(* the transaction structure read from the source is the one the model executes *)
+Theorem C05_startup_source_structure :
+  rescan_env_vars_blocks = env_blocks_expected /\
+  rescan_nglobs_blocks = [[1]; [2]] /\ persist_nglob_statements = [1; 2; 3] /\
+  rescan_files_blocks = [[1]] /\ run_hash_job_transactions = [1].
+Proof. exact startup_source_structure. Qed.
+
+(* the two transactions of reset_interrupted_steps compose to C09's reset_interrupted *)
+Theorem C05_startup_reset_is_two_transactions :
+  forall g, reset_interrupted g = (do g1 <- reset_txn1 g; reset_txn2 g1).
+Proof. exact reset_split. Qed.
+
+(* The general principle, for ANY sequence of phases: if every phase (idem) restarted after any
+   number of its own transactions ends where the uninterrupted phase ends, (est/fix) is settled once
+   complete, and (pres) stays settled under the transactions of the later phases, then a restart
+   from any crash state of the sequence ends where the uninterrupted sequence ends. *)
+Theorem C05_startup_general :
+  forall (I : xst -> Prop) phs,
+    good I phs -> Forall (phase_keeps I) (map fst phs) ->
+    forall s c, I s -> reach_crash (map fst phs) s c ->
+      run_phases (map fst phs) c = run_phases (map fst phs) s.
+Proof. exact crash_restart_general. Qed.
+
+(* The startup sequence with the GENERATED block structure of rescan_env_vars: for all worlds, all
+   stored states with unique labels, every commit point k: restart after the kill = uninterrupted
+   startup (also when that is an error).  Moving a statement of rescan_env_vars into another
+   `async with` block changes [rescan_env_vars_blocks] and this no longer type-checks. *)
+Theorem C05_startup_crash_restart :
+  forall w x k c,
+    labels_unique x = true ->
+    crash_at (startup_phases rescan_env_vars_blocks w) k x = Ok c ->
+    startup rescan_env_vars_blocks w c = startup rescan_env_vars_blocks w x.
+Proof. exact startup_crash_restart. Qed.
+
+(* ... in particular the restarted startup marks at least the steps the uninterrupted one marks,
+   and leaves the same evidence tables *)
+Theorem C05_startup_crash_marks_same :
+  forall w x k c y,
+    labels_unique x = true ->
+    crash_at (startup_phases rescan_env_vars_blocks w) k x = Ok c ->
+    startup rescan_env_vars_blocks w x = Ok y ->
+    exists y', startup rescan_env_vars_blocks w c = Ok y' /\
+               (forall l, In l (pending_steps y) -> In l (pending_steps y')) /\
+               xenv y' = xenv y /\ xng y' = xng y /\ files (xg y') = files (xg y).
+Proof. exact startup_crash_marks_same. Qed.
+
+(* after the complete startup nothing is left to notice: no RUNNING / CHECKING / attached FAILED
+   step, no tracked variable, file hash or glob match of an attached node differs from the world *)
+Theorem C05_startup_settles :
+  forall w x y, labels_unique x = true -> startup rescan_env_vars_blocks w x = Ok y ->
+    settled_R y /\ settled_E w y /\ settled_F w y /\ settled_N w y.
+Proof. exact startup_settles. Qed.
+
+(* The structure with the UPDATE of env_var moved into the reading transaction is refuted: a kill
+   right after that transaction (commit point 3) and the restarted startup leaves step e1
+   SUCCEEDED although its variable changed; the uninterrupted startup marks it PENDING. *)
+Theorem C05_startup_store_early_refuted :
+  labels_unique envw_state = true /\ inv_b (xg envw_state) = true /\
+  exists k c y y', crash_at (startup_phases env_blocks_store_early envw_world) k envw_state = Ok c /\
+                   startup env_blocks_store_early envw_world envw_state = Ok y /\
+                   startup env_blocks_store_early envw_world c = Ok y' /\
+                   In s_e1 (pending_steps y) /\ ~ In s_e1 (pending_steps y').
+Proof. exact store_early_refuted. Qed.
+
+(* non-vacuity: the witness state satisfies the hypotheses, nothing is PENDING in it, and from every
+   crash point of its startup the restart ends with e1 PENDING *)
+Example C05_startup_example :
+  labels_unique envw_state = true /\ inv_b (xg envw_state) = true /\
+  forallb (fun k => match crash_at (startup_phases env_blocks_expected envw_world) k envw_state with
+                    | Ok c => match startup env_blocks_expected envw_world c with
+                              | Ok y => mem_str s_e1 (pending_steps y)
+                              | _ => false end
+                    | _ => false end) (seq 0 8) = true /\
+  pending_steps envw_state = [].
+Proof. exact startup_example_ok. Qed.
 
 (* ---- non-vacuity ---------------------------------------------------------------------------- *)
 (* every prefix of the two witness histories satisfies the hypotheses used above, opens without
